@@ -105,31 +105,37 @@ def r15a(run, F):
                             "keyword is dropped")
     # get_constraints applies exactly this table: constraints[MAP[key]] = <the keyword's value>
     f = run.repo.func(PARSER, "JsonSchemaParser.get_constraints")
-    fa = analysis(f)
-    stores = []
-    for n in fa.cfg.nodes:
-        if n.kind == "stmt" and isinstance(n.ast, ast.Assign) and isinstance(n.ast.targets[0], ast.Subscript):
-            stores.append(n)
-    run.floor("R15a", "stores in get_constraints", len(stores), 1)
-    for n in stores:
-        t = n.ast.targets[0]
-        key_txt = unparse(t.slice)
-        ok_key = "CONSTRAINTS_MAP" in key_txt
-        loop = [b for b in fa.cfg.dominators()[n] if b.kind == "branch" and b.is_for and b.polarity]
-        ok_val = False
-        ok_guard = False
-        if loop and isinstance(loop[-1].stmt.target, ast.Tuple) and len(loop[-1].stmt.target.elts) == 2 \
-                and unparse(loop[-1].stmt.iter).endswith(".items()"):
-            k, v = (unparse(x) for x in loop[-1].stmt.target.elts)
-            ok_val = unparse(n.ast.value) == v and f"[{k}]" in key_txt
-            ok_guard = any(isinstance(a, ast.Compare) and isinstance(a.ops[0], ast.In) and unparse(a.left) == k
-                           and "CONSTRAINTS_MAP" in unparse(a.comparators[0]) and p for a, p in fa.facts.atoms_at(n))
-        run.check("R15a", f, "get_constraints stores the keyword's value under the mapped constraint name",
-                  ok_key and ok_val and ok_guard, construct="get_constraints store",
-                  message=f"`{norm_stmt(n.ast)}` does not store schema[key] under CONSTRAINTS_MAP[key] guarded by "
-                          f"`key in CONSTRAINTS_MAP`",
-                  necessity="a keyword's value stored under another name (or the name stored as value) builds a type "
-                            "with a different bound than the schema's", node=n.ast)
+    # interpreted (absint.py) over every subset of {two mapped keywords, one unmapped key}: the result must be exactly
+    # {MAP[keyword]: the keyword's value} for the mapped ones
+    import itertools
+    from ..absint import Interp, Obj, Raised
+    MAP = {"kwOne": "consOne", "kwTwo": "consTwo"}
+    total = 0
+    bad = None
+    for present in itertools.product((False, True), repeat=3):
+        schema = {}
+        if present[0]:
+            schema["kwOne"] = "value-1"
+        if present[2]:
+            schema["unmapped"] = "value-u"
+        if present[1]:
+            schema["kwTwo"] = None
+        ip = Interp(globals_={"constant": Obj("module", CONSTRAINTS_MAP=dict(MAP))}, module=f.module)
+        try:
+            got = ip.call_function(f.node, (Obj("JsonSchemaParser"), schema), {})
+        except Raised as r:
+            got = f"raises {r.cls}"
+        want = {MAP[k]: v for k, v in schema.items() if k in MAP}
+        total += 1
+        if got != want and bad is None:
+            bad = (dict(schema), got, want)
+    run.check("R15a", f, "get_constraints stores each mapped keyword's value under the mapped constraint name, nothing else",
+              bad is None, construct="get_constraints store",
+              message=f"JsonSchemaParser.get_constraints: for the schema {bad[0] if bad else ''} with CONSTRAINTS_MAP {MAP} it "
+                      f"returns {bad[1] if bad else ''!r} instead of {bad[2] if bad else ''!r}",
+              necessity="a keyword's value stored under another name (or the name stored as value) builds a type "
+                        "with a different bound than the schema's")
+    run.floor("R15a", "schema shapes evaluated for get_constraints", total, 8)
 
 
 def r15b(run, F):
@@ -550,6 +556,20 @@ def r15e(run):
             alias_ok = any(isinstance(a, ast.Compare) and isinstance(a.ops[0], ast.NotEq) and p
                            and {unparse(a.left), unparse(a.comparators[0])} == {sorted(ATT)[0], unparse(n.ast.value)}
                            for a, p in fa.facts.atoms_at(n)) if len(ATT) == 1 else False
+    if not alias_ok and len(ATT) == 1:
+        # written as a conditional expression at the call: alias=key if attname != key else None (either orientation)
+        att = sorted(ATT)[0]
+        for n, c in fa.all_calls():
+            av = kwarg(c, "alias") if call_attr(c) == "parse_field" else None
+            if isinstance(av, ast.IfExp) and isinstance(av.test, ast.Compare) and len(av.test.ops) == 1:
+                l, r = unparse(av.test.left), unparse(av.test.comparators[0])
+                ne = isinstance(av.test.ops[0], ast.NotEq)
+                eq = isinstance(av.test.ops[0], ast.Eq)
+                keyed = (av.body if ne else av.orelse) if (ne or eq) else None
+                other = (av.orelse if ne else av.body) if (ne or eq) else None
+                if keyed is not None and {l, r} == {att, unparse(keyed)} and unparse(keyed) in KEYS \
+                        and isinstance(other, ast.Constant) and other.value is None:
+                    alias_ok = True
     run.check("R15e", f, "a renamed property keeps its schema key as the field alias", alias_ok,
               construct="renamed property loses its key",
               message="parse_object does not set alias=key when attname != key",
